@@ -4,11 +4,22 @@
     action.eval <ctx>* | <tok>*               -> ok <0|1> <well-hex,…|-> | err | noparse
     action.run <max_run> <min_wait> <start> <t>:<0|1> …   -> <run times,…|-> <count>
   tokens: N:<text-hex>:<bits>  E:<text-hex>:<FuncType code>  L  R  A  O  C:<gt|ge|lt|le|eq|ne>
+          T:<text-hex>:<strtod bits>:<FuncType code>   raw token, classified by the MODEL (`classify`)
   ctx:    WF=<code of FuncType::well>  MF=<code of FuncType::time_month>
           K:<key-hex>=<bits>           (everything `Context::get(key)` knows)
-          P:<func-hex>:<pattern-hex>:<well-hex,…|->   (wells of `func` matching the pattern)
+          P:<func-hex>:<pattern-hex>:<well-hex,…|->   (wells of `func` matching the pattern; old form)
+          W:<func-hex>:<well-hex,…|->  (`SummaryState::wells(func)`; the MODEL matches the pattern)
+          L:<name-hex>:<well-hex,…|->  (one WLIST, in `std::map` order)
+    action.classify <text-hex>                -> <token class>
+    action.dequote <text-hex>                 -> <text-hex> | err
+    action.glob <pattern-hex> <name-hex>      -> 0 | 1
+    action.sim <ev>*                          -> <name>.<id>@<t>,… | -  ;  <name>.<id>=<count>:<last> …
+       ev:  D:<name-hex>:<max_run>:<min_wait>:<start>   (`Actions::add`)
+            S:<t>:<name-hex,…|->                        (report step: the actions whose condition holds)
+            R:<name-hex>:<count>:<last>                 (`State::load_rst` of one action)
 -/
 import OpmVerif.Model.Action
+import OpmVerif.Model.ActionTok
 -- driver: prefix=action handler=OpmVerif.Act.handle
 
 namespace OpmVerif.Act
@@ -35,6 +46,14 @@ def opCode : CmpOp → Nat
 def parseTok (s : String) : Option Tok :=
   match s.splitOn ":" with
   | ["N", t, b] => do pure { ty := .number, text := (← hexStr t), bits := (← hexNat b).toUInt64 }
+  | ["T", t, b, f] => do
+    let text ← hexStr t
+    let bv ← hexNat b
+    let fv ← f.toNat?
+    let ty := classify text.toList
+    pure { ty := ty, text := (match ty with | .lp => "(" | .rp => ")" | .and => "AND" | .or => "OR" | .cmp o => (match o with | .gt => "gt" | .ge => "ge" | .lt => "lt" | .le => "le" | .eq => "eq" | .ne => "ne") | _ => text),
+           bits := (match ty with | .number => bv.toUInt64 | _ => 0),
+           func := (match ty with | .expr => fv | _ => 0) }
   | ["E", t, f] => do pure { ty := .expr, text := (← hexStr t), func := (← f.toNat?) }
   | ["L"] => some { ty := .lp, text := "(" }
   | ["R"] => some { ty := .rp, text := ")" }
@@ -62,6 +81,8 @@ structure RawCtx where
   monthCode : Nat := 2
   keys : List (String × Float) := []
   pats : List ((String × String) × List String) := []
+  carrying : List (String × List String) := []
+  wlists : List (String × List String) := []
 
 def addItem (c : RawCtx) (item : String) : Option RawCtx :=
   if item.startsWith "WF=" then ((item.drop 3).toString.toNat?).map fun n => { c with wellCode := n }
@@ -72,9 +93,20 @@ def addItem (c : RawCtx) (item : String) : Option RawCtx :=
       | [k, b] => do pure { c with keys := ((← hexStr k), Float.ofBits (← hexNat b).toUInt64) :: c.keys }
       | _ => none
     | ["P", f, p, ws] => do pure { c with pats := (((← hexStr f), (← hexStr p)), (← hexList ws)) :: c.pats }
+    | ["W", f, ws] => do pure { c with carrying := ((← hexStr f), (← hexList ws)) :: c.carrying }
+    | ["L", n, ws] => do pure { c with wlists := c.wlists ++ [((← hexStr n), (← hexList ws))] }
     | _ => none
 
 def hasStar (s : String) : Bool := s.toList.contains '*'
+
+/-- `WListManager::wells(pattern)`: the list of that name, else every list whose name (without the
+leading `*`) matches the pattern (without it), wells in first-seen order -/
+def wlistWells (wl : List (String × List String)) (pat : String) : List String :=
+  match wl.lookup pat with
+  | some ws => ws
+  | none =>
+    (wl.filter fun p => globMatch (pat.toList.drop 1) (p.1.toList.drop 1)).foldl
+      (fun acc p => p.2.foldl (fun a w => if a.contains w then a else a ++ [w]) acc) []
 
 /-- `ASTNode::nodeValue` -/
 def nodeValue (c : RawCtx) : Leaf → Except Unit (Value Float)
@@ -88,7 +120,14 @@ def nodeValue (c : RawCtx) : Leaf → Except Unit (Value Float)
       if more.isEmpty && hasStar a then
         if ft ≠ c.wellCode then .error ()
         else
-          match c.pats.lookup (f, a) with
+          let wsel : Option (List String) :=
+            match c.pats.lookup (f, a) with
+            | some ws => some ws
+            | none =>
+              match c.carrying.lookup f with
+              | some cw => some (getWellList (wlistWells c.wlists) cw a)
+              | none => if isWellListName a.toList then some (wlistWells c.wlists a) else none
+          match wsel with
           | none => .error ()
           | some ws =>
             match ws.mapM fun w => (c.keys.lookup (f ++ ":" ++ w)).map fun v => (w, v) with
@@ -129,6 +168,41 @@ def parseEvent (s : String) : Option (Int × Bool) :=
   | [t, c] => (t.toInt?).map fun ti => (ti, c = "1")
   | _ => none
 
+/-- events of `action.sim` -/
+inductive SimEv where
+  | define (name : String) (lim : Limits)
+  | step (t : Int) (trueNames : List String)
+  | rst (name : String) (count : Nat) (last : Int)
+
+def parseSimEv (s : String) : Option SimEv :=
+  match s.splitOn ":" with
+  | ["D", n, mr, mw, st] => do pure (.define (← hexStr n) ⟨(← mr.toNat?), (← mw.toInt?), (← st.toInt?)⟩)
+  | ["S", t, ns] => do pure (.step (← t.toInt?) (← hexList ns))
+  | ["R", n, c, l] => do pure (.rst (← hexStr n) (← c.toNat?) (← l.toInt?))
+  | _ => none
+
+/-- run the events; the step events go through `sim` one report step at a time -/
+def simRun : List ActDef → AState → List SimEv → List (Key × Int) → List ActDef × AState × List (Key × Int)
+  | acts, s, [], log => (acts, s, log)
+  | acts, s, .define n l :: r, log => simRun (addAction acts n l) s r log
+  | acts, s, .rst n c l :: r, log =>
+    match acts.find? (fun a => a.key.1 = n) with
+    | some a => simRun acts (if c > 0 then loadRst s a.key c l else s) r log
+    | none => simRun acts s r log
+  | acts, s, .step t ns :: r, log =>
+    let ev : Int × (Key → Bool) := (t, fun k => ns.contains k.1)
+    simRun acts (simState acts s [ev]) r (log ++ sim acts s [ev])
+
+def simHandle (args : List String) : String :=
+  match args.mapM parseSimEv with
+  | none => "bad-op"
+  | some evs =>
+    let (acts, s, log) := simRun [] AState.empty evs []
+    let showK (k : Key) : String := strHex k.1 ++ "." ++ toString k.2
+    (if log.isEmpty then "-" else ",".intercalate (log.map fun e => showK e.1 ++ "@" ++ toString e.2)) ++ " ;" ++
+      String.join (acts.map fun a => " " ++ showK a.key ++ "=" ++ toString (s a.key).count ++ ":" ++
+        (if (s a.key).count = 0 then "-" else toString (s a.key).last))
+
 def handle (op : String) (args : List String) : String :=
   match op with
   | "action.parse" =>
@@ -152,6 +226,34 @@ def handle (op : String) (args : List String) : String :=
         | .error _ => "err"
       | _ => "noparse"
     | _, _ => "bad-op"
+  | "action.classify" =>
+    match args with
+    | [t] =>
+      match hexStr t with
+      | some text =>
+        (match classify text.toList with
+         | .number => "number" | .expr => "expr" | .lp => "lp" | .rp => "rp" | .and => "and" | .or => "or"
+         | .cmp o => "cmp" ++ toString (opCode o))
+      | none => "bad-op"
+    | _ => "bad-op"
+  | "action.dequote" =>
+    match args with
+    | [t] =>
+      match hexStr t with
+      | some text =>
+        (match dequote text.toList with
+         | some r => strHex (String.ofList r)
+         | none => "err")
+      | none => "bad-op"
+    | _ => "bad-op"
+  | "action.glob" =>
+    match args with
+    | [p, n] =>
+      match hexStr p, hexStr n with
+      | some pt, some nm => if globMatch pt.toList nm.toList then "1" else "0"
+      | _, _ => "bad-op"
+    | _ => "bad-op"
+  | "action.sim" => simHandle args
   | "action.run" =>
     match args with
     | mr :: mw :: st :: evs =>
